@@ -12,15 +12,16 @@ THEOREMS = [
     "Mesa.Viz.C20_space_agents_exactly_once",
     "Mesa.Viz.C20_collect_one_entry_per_agent",
     "Mesa.Viz.C20_entry_is_portrayal_or_default",
+    "Mesa.Viz.C20_collect_optional_arrays",
     "Mesa.Viz.C20_location_rule",
     "Mesa.Viz.C20_V3_inplace_pop_refuted",
     "Mesa.Viz.C20_inplace_agrees_on_unshared_dicts",
     "Mesa.Viz.C20_scatter_partition",
     "Mesa.Viz.C20_marker_values",
+    "Mesa.Viz.C20_scatter_optional_args",
+    "Mesa.Viz.C20_draw_one_marker_per_agent",
     "Mesa.Viz.C20_draw_ok_one_marker_per_agent",
-    "Mesa.Viz.C20_draw_one_marker_per_agent_partial",
-    "Mesa.Viz.C20_draw_fails_iff_optional_not_uniform",
-    "Mesa.Viz.C20_V7_full_statement_refuted",
+    "Mesa.Viz.C20_V7_some_agents_optional_drawn",
     "Mesa.Viz.C20_empty_space_draws_nothing",
     "Mesa.Viz.C20_hex_marker_at_hexagon_centre",
     "Mesa.Viz.C20_distinct_locations_distinct_positions",
@@ -36,7 +37,7 @@ THEOREMS = [
 ]
 COUNTS = {"quick": 1600, "thorough": 60000}
 TRUSTED = [
-    "matplotlib: Axes.scatter stores the x/y/s/c/marker/zorder/alpha/edgecolors/linewidths it is given in one PathCollection (read back through get_offsets/get_sizes/get_facecolors/get_edgecolors/get_linewidths/get_zorder/get_paths); colour-name conversion, marker rendering, imshow(origin='lower') putting array row r at height r",
+    "matplotlib: Axes.scatter stores the x/y/s/c/marker/zorder/alpha/edgecolors/linewidths it is given in one PathCollection (read back through get_offsets/get_sizes/get_facecolors/get_edgecolors/get_linewidths/get_zorder/get_paths); slot i of a keyword array belongs to marker i (the model's `Group.drawn`); a marker whose alpha / edge colour / line width is the filled-in default (own colour's alpha, face colour, rcParams patch.linewidth) reads back like one drawn without the keyword; colour-name conversion, marker rendering, imshow(origin='lower') putting array row r at height r",
     "Altair: Chart.to_dict() reports the rows given to alt.Data(values=...) unchanged",
     "solara/reacton: solara.render runs the component function and its effects once (used for SpaceMatplotlib, SpaceAltair, ModelCreator; the Axes / Chart are taken from the post_process hook)",
     "networkx spring_layout(seed=0) is deterministic; the model keeps a node's label for its layout position",
@@ -105,12 +106,7 @@ def builtin_corpus():
 run_impl = V.run_impl
 oracle = V.oracle
 
-KNOWN = {
-    "V7": {
-        "scenario": ["scenario space multi 2 2", "dict 0 alpha=50", "place 1 0 0", "portray 1 0", "place 2 1 1", "draw"],
-        "matches": lambda sc, clause: clause.startswith("draw-raised-partial-optional"),
-    },
-}
+KNOWN = {}
 
 
 def nontrivial(sc, obs):
@@ -147,6 +143,8 @@ def tags(sc, obs):
                     yield "result:" + o
             if w[0] in ("draw", "drawc") and o.count(" | ") >= 2:
                 yield "branch:several-scatter-groups"
+            if w[0] in ("collect", "collectd") and "None" in o and o.startswith("ok"):
+                yield "branch:optional-key-for-some-agents"
             if w[0] in ("collect", "collectd") and "ign=-" not in o and o.startswith("ok"):
                 yield "branch:ignored-fields-warning"
             if w[0] == "drawlayer":
